@@ -49,12 +49,15 @@ void libwifi_handle_ssid_tag(void *target, int target_type, const char *tag_data
         hidden = 1;
     }
 
+    // A repeated SSID element replaces the earlier one, it is not laid over it
     if (target_type == LIBWIFI_BSS) {
         struct libwifi_bss *bss = (struct libwifi_bss *) target;
+        memset(bss->ssid, 0, sizeof(bss->ssid));
         memcpy(bss->ssid, tag_data, tag_len);
         bss->hidden = hidden;
     } else if (target_type == LIBWIFI_STA) {
         struct libwifi_sta *sta = (struct libwifi_sta *) target;
+        memset(sta->ssid, 0, sizeof(sta->ssid));
         memcpy(sta->ssid, tag_data, tag_len);
     }
 }
